@@ -349,6 +349,14 @@ func c14Target(w gen.World, t int, kind string) packet.Addr {
 		a.IP = netip.AddrFrom16(x)
 	case "ip4":
 		a.IP = netip.AddrFrom4([4]byte{192, 168, 0, byte(20 + t%4)})
+	case "ip4ll": // IPv4 link-local: still IPv4
+		a.IP = netip.AddrFrom4([4]byte{169, 254, 0, byte(10 + t%4)})
+	case "ula":
+		x := netip.MustParseAddr("fd00::100").As16()
+		x[15] = byte(t%4 + 1)
+		a.IP = netip.AddrFrom16(x)
+	case "mapped": // IPv4-mapped IPv6: an IPv6 address that is not link-local
+		a.IP = netip.AddrFrom16([16]byte{10: 0xff, 11: 0xff, 12: 192, 13: 168, 14: 0, 15: byte(20 + t%4)})
 	}
 	return a
 }
@@ -420,12 +428,12 @@ func c14RunHuntSync(tb drv.TB, rec *drv.Rec, sub string, c c14Hunt) {
 				return
 			}
 			switch op.Addr {
-			case "ip4":
+			case "ip4", "ip4ll":
 				if err == nil {
-					fail(step, "c14-starthunt-accepts-ipv4", "StartHunt with an IPv4 address returned nil")
+					fail(step, "c14-starthunt-accepts-ipv4", "StartHunt with the IPv4 address %v returned nil", addr.IP)
 					return
 				}
-			case "gua": // ignored
+			case "gua", "ula", "mapped": // ignored
 			default:
 				if err != nil {
 					fail(step, "c14-starthunt-error", "StartHunt returned %v", err)
@@ -445,7 +453,7 @@ func c14RunHuntSync(tb drv.TB, rec *drv.Rec, sub string, c c14Hunt) {
 				fail(step, sig, "StopHunt panicked: %v\n%s", p, st)
 				return
 			}
-			if op.Addr == "lla" || op.Addr == "none" {
+			if op.Addr == "lla" || op.Addr == "none" || op.Addr == "ip4ll" { // StopHunt acts on every link-local or absent address
 				if hunted[mac] && len(routers) > 0 && !closed {
 					stopOfStarted = true
 				}
@@ -652,6 +660,20 @@ func TestC14(t *testing.T) {
 		for i := rapid.IntRange(1, 4).Draw(t, "nra"); i > 0; i-- {
 			c.RAs = append(c.RAs, genC14RA(t, rapid.IntRange(0, 1).Draw(t, "router")))
 		}
+		// a "twin" of the previous RA: same length and same checksum (16-bit words swapped), different content
+		if n := len(c.RAs); n < 4 && rapid.IntRange(0, 2).Draw(t, "twin") == 0 {
+			tw := c.RAs[n-1]
+			tw.Prefixes = append([]c14Prefix(nil), tw.Prefixes...)
+			tw.Reachable, tw.Retrans = tw.Retrans, tw.Reachable
+			if len(tw.Prefixes) > 0 {
+				tw.Prefixes[0].Valid, tw.Prefixes[0].Preferred = tw.Prefixes[0].Preferred, tw.Prefixes[0].Valid
+			}
+			tw.RDNSSLife, tw.DNSSLLife = tw.DNSSLLife, tw.RDNSSLife
+			if len(tw.RDNSS) == 0 || len(tw.DNSSL) == 0 { // the swap needs both options to keep the sum
+				tw.RDNSSLife, tw.DNSSLLife = tw.DNSSLLife, tw.RDNSSLife
+			}
+			c.RAs = append(c.RAs, tw)
+		}
 		// the router record has one MAC: a router keeps its source link-layer option over a case
 		first := map[int]bool{}
 		seen := map[int]bool{}
@@ -673,7 +695,7 @@ func TestC14(t *testing.T) {
 				op.K = "settle"
 			}
 			if op.K == "start" || op.K == "stop" {
-				op.Addr = rapid.SampledFrom([]string{"lla", "lla", "none", "gua", "ip4"}).Draw(t, "addr")
+				op.Addr = rapid.SampledFrom([]string{"lla", "lla", "lla", "none", "none", "gua", "ip4", "ip4ll", "ula", "mapped"}).Draw(t, "addr")
 			}
 			c.Ops = append(c.Ops, op)
 		}
